@@ -470,5 +470,6 @@ def run(houses, tick=0.125, horizon=8, env_front=None, env_back=None, watch=(), 
     res.events.append(list(EVENTS))
     EVENTS.clear()
     res.final = {"framers": [framer_snapshot(fm) for fm in all_framers(house)],
-                 "ready": [t.name for t, r, p in sk.ready]}
+                 "ready": [t.name for t, r, p in sk.ready],
+                 "registry": sorted(n for n, t in house.names.get("tasker", {}).items() if isinstance(t, framing.Framer))}
     return res
